@@ -10,8 +10,9 @@
  *   cmallocf <stp> <nb> <failat> <n> k1 v1 ...              -> cmallocf <rc> <dest untouched> out=<outstanding>
  *   dissect  <ex> <pts> <bc> <mm> <text>                    -> dissect <rc> <count> <n> k1 v1 ... out=<outstanding>
  *   dissectf <pts> <bc> <failat> <text>                     -> dissectf <rc> <count> <dest null> out=<outstanding>
- *   bigreq   <stp> <nb> <N> <klen> <vlen|-1>                -> bigreq <rc> <required|->
- *   bigmalloc <stp> <nb> <N> <klen> <vlen|-1>               -> bigmalloc <rc>
+ *   bigreq   <stp> <nb> <N> <klen> <vlen|-1> [<N> <klen> <vlen|-1> ...] -> bigreq <rc> <required|->
+ *   bigmalloc <stp> <nb> <N> <klen> <vlen|-1> [...]        -> bigmalloc <rc>
+ *            (groups of N items sharing one key and one value string of 'a's)
  *   fn2uri   <unix> <text>                                  -> fn2uri <rc> <text> <guard>
  *   uri2fn   <unix> <absdoc> <text>                         -> uri2fn <rc> <text> <guard>
  *   parseok  <text>                                         -> parseok <rc of uriParseSingleUri>
@@ -259,44 +260,51 @@ static void op_dissectf(void) {
 	free(in);
 }
 
-/* N items that all point to the same key and value buffers */
-static T(QueryList) *big_list(long N, long klen, long vlen, CH **kb, CH **vb) {
-	CH *k = malloc(((size_t)klen + 1) * sizeof(CH)), *v = NULL;
-	if (!k) return NULL;
-	for (long i = 0; i < klen; i++) k[i] = (CH)'a';
-	k[klen] = 0;
-	if (vlen >= 0) {
-		if (vlen == klen) v = k;
-		else {
-			v = malloc(((size_t)vlen + 1) * sizeof(CH));
-			if (!v) { free(k); return NULL; }
-			for (long i = 0; i < vlen; i++) v[i] = (CH)'a';
-			v[vlen] = 0;
+/* a buffer of len times 'a' */
+static CH *a_string(long len) {
+	CH *b = malloc(((size_t)len + 1) * sizeof(CH));
+	if (!b) return NULL;
+	for (long i = 0; i < len; i++) b[i] = (CH)'a';
+	b[len] = 0;
+	return b;
+}
+/* G groups of items <N> <klen> <vlen|-1>, one after the other in the list; the N items of a group
+ * all point to the same key and value buffers (one buffer for both when klen == vlen) */
+static void op_big(int domalloc) {
+	const char *name = domalloc ? "bigmalloc" : "bigreq";
+	int stp = atoi(fld[1]), nb = atoi(fld[2]);
+	int G = (nfld - 3) / 3, ok = 1;
+	if (G < 1 || nfld != 3 + 3 * G) { printf("%s ?fields", name); return; }
+	CH **kb = calloc((size_t)G, sizeof(*kb)), **vb = calloc((size_t)G, sizeof(*vb));
+	long total = 0;
+	for (int g = 0; g < G; g++) total += atol(fld[3 + 3 * g]);
+	T(QueryList) *nodes = malloc((size_t)(total > 0 ? total : 1) * sizeof(*nodes));
+	if (!kb || !vb || !nodes || total < 1) ok = 0;
+	long at = 0;
+	for (int g = 0; ok && g < G; g++) {
+		long N = atol(fld[3 + 3 * g]), klen = atol(fld[4 + 3 * g]), vlen = atol(fld[5 + 3 * g]);
+		kb[g] = a_string(klen);
+		if (!kb[g]) { ok = 0; break; }
+		if (vlen == klen) vb[g] = kb[g];
+		else if (vlen >= 0) { vb[g] = a_string(vlen); if (!vb[g]) { ok = 0; break; } }
+		for (long i = 0; i < N; i++, at++) {
+			nodes[at].key = kb[g]; nodes[at].value = vb[g];
+			nodes[at].next = at + 1 < total ? &nodes[at + 1] : NULL;
 		}
 	}
-	T(QueryList) *nodes = malloc((size_t)N * sizeof(*nodes));
-	if (!nodes) { if (v != k) free(v); free(k); return NULL; }
-	for (long i = 0; i < N; i++) { nodes[i].key = k; nodes[i].value = v; nodes[i].next = i + 1 < N ? &nodes[i + 1] : NULL; }
-	*kb = k; *vb = v;
-	return nodes;
-}
-static void op_big(int domalloc) {
-	int stp = atoi(fld[1]), nb = atoi(fld[2]); long N = atol(fld[3]), klen = atol(fld[4]), vlen = atol(fld[5]);
-	CH *kb = NULL, *vb = NULL;
-	T(QueryList) *l = big_list(N, klen, vlen, &kb, &vb);
-	if (!l) { printf("%s nomem", domalloc ? "bigmalloc" : "bigreq"); return; }
-	if (!domalloc) {
+	if (!ok) printf("%s nomem", name);
+	else if (!domalloc) {
 		int req = -777;
-		int rc = F(ComposeQueryCharsRequiredEx)(l, &req, stp, nb);
+		int rc = F(ComposeQueryCharsRequiredEx)(nodes, &req, stp, nb);
 		if (rc == 0) printf("bigreq 0 %d", req); else printf("bigreq %d -", rc);
 	} else {
 		CH *out = NULL;
-		int rc = F(ComposeQueryMallocEx)(&out, l, stp, nb);
+		int rc = F(ComposeQueryMallocEx)(&out, nodes, stp, nb);
 		printf("bigmalloc %d", rc);
 		if (rc == 0) free(out);
 	}
-	if (vb != kb) free(vb);
-	free(kb); free(l);
+	for (int g = 0; kb && vb && g < G; g++) { if (vb[g] != kb[g]) free(vb[g]); free(kb[g]); }
+	free(kb); free(vb); free(nodes);
 }
 
 /* ------------------------------------------------------------------ filenames */
